@@ -1,5 +1,5 @@
 CONSTANTS MaxEntries = 2
  Emit = TRUE
 SPECIFICATION Spec
-INVARIANTS C14Algo EmitC14
+INVARIANTS C14Algo LateMarkSafe EmitC14
 CHECK_DEADLOCK FALSE
